@@ -6,16 +6,25 @@ pub mod builtins;
 pub mod lists;
 pub mod textprops;
 pub mod timing;
+#[cfg(feature = "hooks")]
 pub mod insitu;
 pub mod rename;
 
+#[cfg(feature = "hooks")]
+fn with_insitu(direct: Box<dyn Workload>, which: usize, tier: Tier, seed: u64) -> Box<dyn Workload> {
+    let p = [insitu::Prop::C06, insitu::Prop::C07, insitu::Prop::C08, insitu::Prop::C09, insitu::Prop::C10][which];
+    Box::new(Compose { parts: vec![direct, Box::new(insitu::InSitu::new(p, tier, seed))] })
+}
+#[cfg(not(feature = "hooks"))]
+fn with_insitu(direct: Box<dyn Workload>, _which: usize, _tier: Tier, _seed: u64) -> Box<dyn Workload> { direct }
+
 pub fn make(prop: &str, tier: Tier, seed: u64) -> Option<Box<dyn Workload>> {
     Some(match prop {
-        "C06" => Box::new(Compose { parts: vec![Box::new(unify::C06::new(tier, seed)), Box::new(insitu::InSitu::new(insitu::Prop::C06, tier, seed))] }),
-        "C07" => Box::new(Compose { parts: vec![Box::new(unify::C07::new(tier, seed)), Box::new(insitu::InSitu::new(insitu::Prop::C07, tier, seed))] }),
-        "C08" => Box::new(Compose { parts: vec![Box::new(unify::C08::new(tier, seed)), Box::new(insitu::InSitu::new(insitu::Prop::C08, tier, seed))] }),
-        "C09" => Box::new(Compose { parts: vec![Box::new(unify::C09::new(tier, seed)), Box::new(insitu::InSitu::new(insitu::Prop::C09, tier, seed))] }),
-        "C10" => Box::new(Compose { parts: vec![Box::new(rename::C10::new(tier, seed)), Box::new(insitu::InSitu::new(insitu::Prop::C10, tier, seed))] }),
+        "C06" => with_insitu(Box::new(unify::C06::new(tier, seed)), 0, tier, seed),
+        "C07" => with_insitu(Box::new(unify::C07::new(tier, seed)), 1, tier, seed),
+        "C08" => with_insitu(Box::new(unify::C08::new(tier, seed)), 2, tier, seed),
+        "C09" => with_insitu(Box::new(unify::C09::new(tier, seed)), 3, tier, seed),
+        "C10" => with_insitu(Box::new(rename::C10::new(tier, seed)), 4, tier, seed),
         "C01" => Box::new(search::Search::new(search::Which::C01, tier, seed)),
         "C02" => Box::new(search::Search::new(search::Which::C02, tier, seed)),
         "C03" => Box::new(search::Search::new(search::Which::C03, tier, seed)),
